@@ -6,4 +6,5 @@ let () =
   | _ :: "world-check" :: _ -> World_suite.run ()
   | _ :: "sysdata-check" :: _ -> Sysdata_suite.run ()
   | _ :: "meta-check" :: _ -> Meta_suite.run ()
+  | _ :: "parseq-check" :: _ -> Parseq_suite.run ()
   | _ -> prerr_endline "usage: driver <suite>-check < lines"; exit 2
